@@ -12,11 +12,11 @@ copy=$(mktemp -d /tmp/vf-seeded-XXXXXX)
 git -C /repo archive HEAD | tar -x -C "$copy"
 out="$src/eval.txt"; : > "$out"
 log() { echo "$@" | tee -a "$out"; }
-cp "$src/demo.py" "$copy/demo_seeded.py" 2>/dev/null
-run_demo() { (cd "$copy" && timeout 600 /venv/bin/python demo_seeded.py >/tmp/vf-demo.out 2>&1; echo $?); }
+mkdir -p "$copy/seeded" && cp "$src/demo.py" "$copy/seeded/demo.py" 2>/dev/null
+run_demo() { (cd "$copy" && PYTHONPATH="$copy" timeout 900 /venv/bin/python seeded/demo.py >/tmp/vf-demo-$$.out 2>&1; echo $?); }
 rc0=$(run_demo); log "demo without change: exit $rc0"
 if ! (cd "$copy" && git apply --unsafe-paths "$src/patch.diff" 2>/dev/null || patch -p1 -s < "$src/patch.diff"); then log "PATCH DOES NOT APPLY"; rm -rf "$copy"; exit 2; fi
-rc1=$(run_demo); log "demo with change: exit $rc1 ($(tail -1 /tmp/vf-demo.out | cut -c1-200))"
+rc1=$(run_demo); log "demo with change: exit $rc1 ($(tail -1 /tmp/vf-demo-$$.out | cut -c1-200))"
 # the repository's own suite on the patched copy vs the stable baseline
 (cd "$copy" && env -u XYZPY_VERIF /venv/bin/python -m pytest -q -p no:cacheprovider -W ignore --timeout=900 --junitxml="$copy/junit.xml" tests >/dev/null 2>&1)
 python3 - "$copy/junit.xml" <<'PY' | tee -a "$out"
@@ -29,7 +29,7 @@ base=json.load(open("/root/.vp/BASELINE.json"))["stable_pass"]
 miss=[t for t in base if t not in passed]
 print("repository suite on the patched copy: %d passing, baseline tests no longer passing: %d %s" % (len(passed), len(miss), miss[:3]))
 PY
-rm -f "$copy/junit.xml" "$copy/demo_seeded.py"
+rm -rf "$copy/junit.xml" "$copy/seeded" /tmp/vf-demo-$$.out
 for cid in "$id" "$@"; do
     o=$(VERIF_REPO="$copy" VERIF_OUT_DIR="$copy/.vf-out" "$here/check" "$cid" "$tier" 2>&1); rc=$?
     log "check $cid $tier on the patched copy: exit $rc, $(echo "$o" | grep -c '^VIOLATION') VIOLATION lines"
